@@ -115,12 +115,6 @@ Proof.
   rewrite blit_length. exact L.
 Qed.
 
-Lemma ramp_bytes : forall k from, from + N.of_nat k <= 256 -> is_bytes (ramp k from).
-Proof.
-  induction k as [|k IH]; intros from H; [constructor|]. cbn [ramp]. constructor; [unfold is_byte; lia|].
-  apply IH. lia.
-Qed.
-
 Lemma pkt_read_ok b n : is_bytes b -> g_pkt_read b n = COk.
 Proof.
   intro HB. unfold g_pkt_read. cbv zeta. pose proof (pkt_of_length b) as L.
@@ -133,7 +127,7 @@ Qed.
 Lemma pkt_setpayload_ok b n : is_bytes b -> g_pkt_setpayload b n = COk.
 Proof.
   intro HB. unfold g_pkt_setpayload. cbv zeta.
-  set (d := ramp _ 0). set (p := pkt_of b).
+  set (p := pkt_of b). set (d := ramp _ 0).
   assert (L : length (fst (Packet.SetPayload_m p d)) = 188%nat) by (rewrite set_payload_length; apply pkt_of_length).
   rewrite (cl_ok _ (HdrTotal.SetPayload_m_total p d (pkt_of_pkt b HB))).
   rewrite (Payload_m_ok _ L), (Payload_fn_ok _ L). reflexivity.
@@ -221,9 +215,9 @@ Proof.
     unfold AF.stuffAF. rewrite AFTotal.length_fill, blit_length. reflexivity.
 Qed.
 
-Lemma af_op_total p0 z o : length p0 = 188%nat -> af_op p0 z = Some o -> AFTotal.op_total o.
+Lemma af_op_total p0 p z sh o : length p0 = 188%nat -> af_op p0 p z sh = Some o -> AFTotal.op_total o.
 Proof.
-  intros L H. unfold af_op in H. cbv zeta in H.
+  intros L H. unfold af_op in H.
   repeat (match type of H with (match ?x with _ => _ end) = Some _ => destruct x end;
           cbv beta iota in H; try discriminate H);
     injection H as <-; cbn [AFTotal.op_total]; rewrite ?upd_length, ?or_byte_length; first [exact I|exact L].
@@ -232,15 +226,15 @@ Qed.
 Lemma af_setters_ok b n : is_bytes b -> g_af_setters b n = COk.
 Proof.
   intro HB. unfold g_af_setters. cbv zeta.
-  set (p0 := pkt_of b). set (p := if (20 <=? n)%Z then _ else _).
+  set (p0 := pkt_of b). set (p := if (Z.rem (Z.quot n 20) 2 =? 1)%Z then _ else _).
   assert (L0 : length p0 = 188%nat) by apply pkt_of_length.
   assert (L : length p = 188%nat).
-  { unfold p. destruct (20 <=? n)%Z; rewrite ?or_byte_length; exact L0. }
+  { unfold p. destruct (Z.rem (Z.quot n 20) 2 =? 1)%Z; rewrite ?or_byte_length; exact L0. }
   destruct (negb (AF.get_bit p 3 32)); [reflexivity|].
   assert (A : forall q, length q = 188%nat -> af_reads q >> cl (Packet.Payload_m q) = COk).
   { intros q Lq. rewrite (af_reads_ok q Lq), (Payload_m_ok q Lq). reflexivity. }
-  destruct (af_op p0 (Z.rem n 20)) as [o|] eqn:EO; [|apply A; exact L].
-  pose proof (AFTotal.step_total p o L (af_op_total p0 _ o L0 EO)) as [NP ND].
+  destruct (af_op p0 p (Z.rem n 20) (Z.quot n 40)) as [o|] eqn:EO; [|apply A; exact L].
+  pose proof (AFTotal.step_total p o L (af_op_total p0 p _ _ o L0 EO)) as [NP ND].
   destruct (AF.step p o) as [q|e| |] eqn:ES; try congruence; [|apply A; exact L].
   apply A. rewrite (step_length p o q ES). exact L.
 Qed.
@@ -293,11 +287,24 @@ Proof. intro HB. apply cl_total. apply PmtTotal.extract_crc_total. exact HB. Qed
 
 Lemma chunks_ok b : is_bytes b -> Forall (fun p => is_bytes p /\ len p = 188) (chunks b).
 Proof. intro HB. apply PmtTotal.chop188_ok. exact HB. Qed.
+Lemma filter_pids_safe pk n : Forall (fun p => is_bytes p /\ len p = 188) pk ->
+  filter_pids pk n <> Panic /\ filter_pids pk n <> Diverge.
+Proof.
+  intro F. unfold filter_pids. destruct ((n <? 10000)%Z || (10007 <? n)%Z); [split; discriminate|]. cbv zeta.
+  destruct ((4 <=? n - 10000)%Z && (n - 10000 <=? 6)%Z); [|cbn [bind]; split; discriminate].
+  destruct (PmtTotal.concat_payloads_total pk F) as [T K].
+  destruct (Pmt.concat_payloads pk) as [pay|e| |]; cbn in T; try contradiction; cbn [bind]; [|split; discriminate].
+  pose proof (PmtTotal.new_pmt_total pay (K pay eq_refl)) as T2.
+  destruct (Pmt.new_pmt pay) as [pm|e| |]; cbn in T2; try contradiction; cbn [bind]; split; discriminate.
+Qed.
 Lemma psi_filter_ok b n : is_bytes b -> g_psi_filter b n = COk.
 Proof.
-  intro HB. unfold g_psi_filter. cbv zeta. apply cl_total. apply PmtTotal.filter_pmt_packets_total.
-  pose proof (chunks_ok b HB) as F. destruct (chunks b) as [|c t]; [|exact F].
-  constructor; [|constructor]. split; [apply pkt_of_bytes; exact HB|apply pkt_of_len].
+  intro HB. unfold g_psi_filter. cbv zeta.
+  assert (F : Forall (fun p => is_bytes p /\ len p = 188) (match chunks b with [] => [pkt_of b] | l => l end)).
+  { pose proof (chunks_ok b HB) as F. destruct (chunks b) as [|c t]; [|exact F].
+    constructor; [|constructor]. split; [apply pkt_of_bytes; exact HB|apply pkt_of_len]. }
+  apply on_ok_ok; [apply filter_pids_safe; exact F|].
+  intros want _. apply cl_total. apply PmtTotal.filter_pmt_packets_total. exact F.
 Qed.
 Lemma psi_readpat_ok b n : is_bytes b -> g_psi_readpat b n = COk.
 Proof.
